@@ -537,8 +537,19 @@ def gen_delete(rng, i=0):
     expire = rng.choice([100, 1000, 604800])
     mindist = rng.choice([0, 0, 0, 1, 5])
     clusters = rng.choice([[1, 2], [1, 2], [1, 2], [1], [1, 2, 3]])
-    h = H(rng, intervals, expire, mindist, clusters)
-    huge = rng.random() < 0.25
+    via = ""
+    if probe_supports_empty():
+        # configuration path of the storage probe: @toml = a TOML document through viper.ReadConfig; @dflt = that document without
+        # intervals / expire-group / min-distance, so that Configure's documented defaults (10, 604800, 0) are what is in force
+        r = rng.random()
+        if r < 0.15:
+            intervals, expire, mindist, via = 10, 604800, 0, "@dflt"
+        elif r < 0.30:
+            via = "@toml"
+    h = H(rng, intervals, expire, mindist, clusters, "deny" + via)
+    if via:
+        h.tags.add("via-" + via[1:])
+    huge = via != "@dflt" and rng.random() < 0.25
     if huge:
         # large but legal expire-group ("never expire" settings), all inside the guard in_i64((now - expire) * 1000) of
         # expired_spec / too_old_spec; EDGE is the largest value for which the product still fits at the first clock value.
@@ -707,19 +718,58 @@ def probe_supports_wide():
     return _WIDE
 
 
+_EMPTY = None
+
+
+def probe_supports_empty():
+    """the present-but-empty list modes and the @set/@toml/@dflt configuration paths of the storage probe; used only if present"""
+    global _EMPTY
+    if _EMPTY is None:
+        import os
+        p = os.path.join(os.path.dirname(os.path.abspath(__file__)), "..", "probes", "storage", "verif_storage_probe_test.go")
+        try:
+            _EMPTY = '"edeny_allow"' in open(p).read()
+        except OSError:
+            _EMPTY = False
+    return _EMPTY
+
+
 def gen_lists(rng, i=0):
     """Allow/deny-list history: the probe compiles real regexps such that exactly the ids of `rej` are rejected.
     mode deny : denylist ^(g<rej>|..)$                         (ids 0..9 only)
     mode allow: allowlist ^(g<not rej>|..)$  over ids 0..9 -> every other name (id 0 = "", ids >= 10) is rejected too,
                 so those ids are put into `rej` when they are used
-    mode both : both of the above."""
+    mode both : both of the above.
+    Present-but-empty list keys ("" = no list configured; Configure must not compile it into the match-everything regexp):
+    mode edeny / eallow / eboth      : only empty keys -> NOTHING is rejected (rej = {}), whatever the name
+    mode edeny_allow                 : denylist "" + the real allowlist of mode allow
+    mode eallow_deny                 : allowlist "" + the real denylist of mode deny
+    Configuration path (suffix): none/@set = viper.Set per key; @toml = a TOML document through viper.ReadConfig;
+    @dflt = TOML without intervals / expire-group / min-distance (header carries the documented defaults 10 604800 0)."""
     intervals = rng.choice([1, 2, 3, 10])
     expire = rng.choice([1000, 604800])
     clusters = rng.choice([[1], [1, 2]])
-    mode = rng.choice(["deny", "allow", "both"] + (["wide"] if probe_supports_wide() else []))
+    modes = ["deny", "allow", "both"] + (["wide"] if probe_supports_wide() else [])
+    if probe_supports_empty():
+        modes += ["edeny", "eallow", "eboth", "edeny_allow", "eallow_deny"]
+    mode = rng.choice(modes)
     rej = set(rng.sample(range(1, 7), rng.choice([1, 2, 3])))
+    if mode in ("edeny", "eallow", "eboth"):
+        rej = set()
     groups = sorted(set(range(1, rng.choice([3, 4, 5]) + 1)) | set(sorted(rej)[:2]))
-    if mode == "wide":
+    lists_mode = mode
+    if mode in ("edeny", "eallow", "eboth"):
+        # no list in force: every name is accepted, also the empty one and ids the patterns never mention
+        if rng.random() < 0.5:
+            groups += [0, 12]
+        mode = "none"
+    elif mode == "edeny_allow":
+        mode = "allow"
+    elif mode == "eallow_deny":
+        mode = "deny"
+    if mode == "none":
+        pass
+    elif mode == "wide":
         # allowlist ^(g[0-9]+)?$ matches every name, denylist as in mode deny: the rejected ids are matched by BOTH lists
         if rng.random() < 0.4:
             groups += [0, 12]
@@ -730,7 +780,13 @@ def gen_lists(rng, i=0):
             groups.append(max(rej))
         if rng.random() < 0.3:
             groups.append(0)
-    h = H(rng, intervals, expire, 0, clusters, mode, rej)
+    via = ""
+    if probe_supports_empty():
+        via = rng.choice(["", "", "@set", "@toml", "@toml", "@dflt"])
+        if via == "@dflt":
+            intervals, expire = 10, 604800
+    h = H(rng, intervals, expire, 0, clusters, lists_mode + via, rej)
+    mode = lists_mode
     topics = [1, 2, 3][:rng.choice([1, 2, 3])]
     w = World(h, topics, groups)
     for c in clusters:
@@ -767,5 +823,5 @@ def gen_lists(rng, i=0):
             else:
                 h.add("FU", h.now, c, t)
     w.fetch_all()
-    h.tags |= {"mode-" + mode} | {"path-%s-%s" % (k, "rejected" if rj else "accepted") for k, rj in paths}
+    h.tags |= {"mode-" + mode, "via-" + (via[1:] or "set")} | {"path-%s-%s" % (k, "rejected" if rj else "accepted") for k, rj in paths}
     return h
